@@ -382,10 +382,6 @@ def check_frame(D, R, frame, observed, detail, kinds_sig, sub):
                         if kind not in of and not pd.isnull(
                                 frame[kind].iloc[i]):
                             problems.append('cell %s/%s not null' % (f, kind))
-            extra = [c for c in cols if c not in ('field', 'failures',
-                                                  'passes') and c not in used]
-            if extra:
-                problems.append('extra columns %r' % extra)
     except Exception as e:                              # malformed frame
         problems.append('unreadable: %r' % e)
     if problems:
@@ -413,8 +409,7 @@ def check_text(R, text, observed, report, detail, kinds_sig, sub):
         for f, of in observed.items():
             failing = any(not x for x in of.values())
             want = True if report in (None, 'all') else failing
-            shown = re.search(r'^%s: \d+ failures?  \d+ pass(es)?'
-                              % re.escape(f), text, re.M) is not None
+            shown = re.search(r'^%s:' % re.escape(f), text, re.M) is not None
             if shown != want:
                 R.viol('str-fields:%s' % report,
                        'report-mode-lists-documented-fields',
@@ -506,6 +501,9 @@ class C02(Check):
         'repair is switched off whenever a type constraint does not name the '
         'column type (repair is documented to rewrite such columns)',
     ]
+
+    def hashseeds(self, tier, verif_seed):
+        return [verif_seed % 3]
 
     def layers(self, tier):
         return [
